@@ -101,7 +101,10 @@ def gen_cases(tier):
     core, mal, lib_text = [], [], []
     for s in range(nsch):
         sch = G.gen_schema(rnd)
-        dbs = [G.gen_db(rnd, sch), dense_db(rnd, sch), G.gen_db(rnd, sch, size=rnd.choice((0, 1)))]
+        # random / dense (colliding values) / sparse (several objects lacking optional values) or tiny
+        dbs = [G.gen_db(rnd, sch), dense_db(rnd, sch),
+               G.gen_db(rnd, sch, size=rnd.choice((2, 3, 4)), sparse=True) if rnd.random() < 0.7
+               else G.gen_db(rnd, sch, size=rnd.choice((0, 1)))]
         for k in range(per):
             e = G.gen_expr(rnd, sch)
             core.append((sch, e, dbs))
@@ -111,6 +114,60 @@ def gen_cases(tier):
                 le = G.gen_expr(rnd, sch, liberal=True)
                 lib_text.append((sch, le, dbs))
     return core, mal, lib_text
+
+
+def gen_inheritance_cases(rnd, n):
+    """exploration stream with inheritance chains of depth >= 3: unions of related / unrelated types at
+    top level, under a FILTER on the inherited exclusive property and as computed multi links
+    (text mode; the harness makes toy_eval_model's object lookup inheritance-aware from the real schema)"""
+    out = []
+    for _ in range(n):
+        depth = rnd.choice((3, 3, 4))
+        chain = [f'A{i}' for i in range(depth)]                    # A0 <- A1 <- A2 (<- A3)
+        side = rnd.choice(chain[:-1])
+        types = [(chain[0], None)] + [(chain[i], chain[i - 1]) for i in range(1, depth)] + [('D', side), ('E', None)]
+        sdl = []
+        for nm, base in types:
+            if base is None:
+                sdl.append(f'type {nm} {{ required name: str {{ constraint exclusive }}; nick: str; }}')
+            else:
+                sdl.append(f'type {nm} extending {base};')
+        oid, db = 0, []
+        for nm, _ in types:
+            for _k in range(rnd.choice((0, 1, 1, 2))):
+                oid += 1
+                o = {'id': oid, '__type__': nm, 'name': f'n{oid}'}
+                if rnd.random() < 0.5:
+                    o['nick'] = rnd.choice(('x', 'y'))
+                db.append(o)
+        names = [t for t, _ in types]
+        for _q in range(6):
+            k = rnd.choice((2, 2, 3))
+            ts = [rnd.choice(names) for _ in range(k)]
+            if rnd.random() < 0.6:
+                ts[0], ts[-1] = rnd.choice(chain[:-2]), rnd.choice(chain[2:])     # ancestor with a depth>=2 descendant
+                if rnd.random() < 0.5:
+                    ts.reverse()
+            form = rnd.random()
+            if form < 0.35:
+                u = ' union '.join(ts)
+            elif form < 0.6:
+                u = '{' + ', '.join(ts) + '}'
+            else:
+                u = f'({ts[0]} union {ts[1]})' + (f' union {ts[2]}' if k == 3 else '')
+            w = rnd.random()
+            if w < 0.35:
+                q = f'select {u}'
+            elif w < 0.55:
+                q = f'select ({u}) filter .name = \'n{rnd.randint(1, max(1, oid))}\''
+            elif w < 0.8:
+                q = f'select E {{ items := ({u}) }}'
+            elif w < 0.9:
+                q = f'select ({u}).name'
+            else:
+                q = f'select count(distinct ({u})) = count({u})'
+            out.append({'sdl': ' '.join(sdl), 'q': q, 'dbs': [db]})
+    return out
 
 
 def upstream_expectations(repo):
@@ -280,7 +337,7 @@ P1 = {'not': 'PNot', 'len': 'PLen', 'tostr': 'PToStr', 'count': 'PCount', 'sum':
       'max': 'PMax', 'any': 'PAny', 'all': 'PAll', 'enumerate': 'PEnumerate', 'unpack': 'PUnpack',
       'asingle': 'PASingle', 'aexists': 'PAExists', 'adistinct': 'PADistinct'}
 P2 = {'eq': 'PEq', 'neq': 'PNeq', 'lt': 'PLt', 'add': 'PAdd', 'mul': 'PMul', 'cat': 'PCat', 'and': 'PAnd',
-      'or': 'POr', 'opteq': 'POptEq', 'in': 'PIn', 'aget': 'PAGet'}
+      'or': 'POr', 'opteq': 'POptEq', 'optneq': 'POptNeq', 'in': 'PIn', 'aget': 'PAGet'}
 QUAL = {'-': 'QNone', 'r': 'QReq', 'o': 'QOpt', 's': 'QSingle', 'm': 'QMulti', 'rs': 'QReqSingle', 'rm': 'QReqMulti'}
 
 
@@ -420,6 +477,10 @@ def run(tier):
             continue
         text_cases.append(json.dumps({'schema': G.sx_str(sch), 'q': q, 'dbs': [G.sx_str(x) for x in dbs]}))
         text_meta.append(('liberal', (sch, le, dbs)))
+    inh = gen_inheritance_cases(lib.rng('C06inherit'), 12 if not thorough else 60)
+    for t in inh:
+        text_cases.append(json.dumps(t))
+        text_meta.append(('inherit', None))
     text_res = run_impl(text_cases, 'text') if text_cases else []
     text_hits = [(j, r) for j, r in enumerate(text_res) if r.get('mon')]
     text_stats = {'cases': len(text_cases), 'compiled': sum(1 for r in text_res if not r.get('err')),
@@ -678,7 +739,7 @@ def run(tier):
         'expression_sizes': dict(sorted(sizes.items())),
         'database_object_counts': dict(sorted(dbsizes.items())),
         'streams': {'corpus': len(corp_core) + len(corp_text), 'core': len(core), 'malformed': len(mal),
-                    'implicit_factoring': len(libt)},
+                    'implicit_factoring': len(libt), 'inheritance_unions': len(inh)},
         'translator': manifest if manifest else {'error': tr_err},
         'substrate': 'harness/rt/vrt.py (stub natives, substitute LR parser, cached std schema); see harness/rt/STATUS.md',
         'trusted_base': [
